@@ -9,13 +9,14 @@ CFG = {
     "level_text": "Coq theorems about an executable model of polyform's PLY writer (property-writer table, header, "
                   "per-vertex records, face records with per-corner texture coordinates; ASCII token lines, little- and "
                   "big-endian bytes) composed with the PLY reader model: for every well-formed point cloud / triangle mesh "
-                  "the reader model returns the stored image of the mesh from the writer model's output in all three "
-                  "encodings; both models are tied to the Go code on every run by evaluating them (vm_compute) on the "
+                  "read_mesh (write o f m) = Ok (expected o m) is proved for ply.Write's table in all three encodings (whole "
+                  "file: header, vertex element, face element, reader construction, regrouping, unweld); both models are tied to the Go code on every run by evaluating them (vm_compute) on the "
                   "files polyform wrote and the meshes ply.ReadMesh returned, plus a direct per-corner oracle",
     "level_note": "Trusted: Coq kernel + vm_compute; hand-written models tied by differential correspondence only "
                   "(generator quality bounds it); strconv number printing/parsing and the float64->float32 conversion "
-                  "are Go-side; theorems cover ply.Write's table (unspecified properties on/off) with float/uchar "
-                  "storage, custom writer tables are covered by the correspondence and the oracle only",
+                  "are Go-side; the whole-file theorems cover ply.Write's table (unspecified properties on/off) except point "
+                  "clouds with per-vertex s/t texture coordinates (equal only up to attribute order: checked per case); "
+                  "custom writer tables are covered by a conditional theorem, the correspondence and the oracle",
     "technique": "Coq proof (induction over property lists, vertex records, face records; byte/token level round trip) "
                  "+ vm_compute correspondence check",
     "design_ref": "DESIGN.md §4 C04",
